@@ -14,6 +14,24 @@ def _identity(x):
     return x
 
 
+class _UnsetFocus(dict):
+    """Event for a focus variable that has no value yet (it is only declared).
+
+    The variable is not in the event, but looking it up gives None instead of
+    failing, so that the stages written for it, such as
+    ``probe["x"].override(value)``, get to provide the value.
+    """
+
+    def __init__(self, data, focus):
+        super().__init__(data)
+        self._focus = focus
+
+    def __missing__(self, key):
+        if key == self._focus:
+            return None
+        raise KeyError(key)
+
+
 class Probe(SourceProxy):
     """Observable which generates a stream of values from program variables.
 
@@ -143,6 +161,8 @@ class Probe(SourceProxy):
         """
         if not self._raw:
             data = {name: cap.value for name, cap in data.items()}
+            if element is not None and element.capture not in data:
+                data = _UnsetFocus(data, element.capture)
         self._push(data)
         return ABSENT
 
